@@ -36,11 +36,12 @@ def run(chk):
                 "overlapping / empty / half-space / complementary half-space / diagonal-cut / point / strip pieces; 10-14 steps interleaving add_disjunct, "
                 "meet, upper bound, difference, concatenate, add_constraint(s), affine (pre)image, unconstrain, dimension changes, closure, omega_reduce, "
                 "pairwise_reduce, collapse(n), collapse(), add_non_bottom_disjunct_preserve_reduction, drop / mutate of a disjunct, copies, assignments, "
-                "swaps and queries; plus blocks of bare Determinate handle operations. A step is distinct by its case line and counted non-trivial when "
+                "swaps and queries; any step that consults abandon_expensive_computations is, with probability 0.12 and in a dedicated family, run with the flag raised "
+                "(`hurry'); plus blocks of bare Determinate handle operations. A step is distinct by its case line and counted non-trivial when "
                 "it is an op/qry/cw step judged by a verified function (not a skipped unchanged state)")
     chk.trusted += TRUSTED
     chk.assumptions += [
-        "abandon_expensive_computations is null (no hurry-up collapse inside omega_reduce): the union/flag theorems compared per step are the `never' instances; the general oracle version proves only 'union can only grow'",
+        "abandon_expensive_computations is either null or raised for the whole call (a Throwable that is never thrown): the model is run with the `never' resp. `always' oracle; other schedules (flag raised in the middle of a call) are covered only by the theorems for an arbitrary oracle ('no point is lost'), not by the tie",
         "difference_assign, simplify_using_context_assign, time_elapse_assign and fold_space_dimensions are not modelled disjunct by disjunct: difference is judged geometrically (exact set difference for NNC; x minus y <= result <= x for C), the others only through OK()",
         "generator hints for the hull come from the library's own generators, adopted only after dd_pair proved them equal to the disjunct's constraints; a rejected hint makes the hull the universe (sound) and shows up as a disagreement",
     ]
@@ -72,6 +73,8 @@ def run(chk):
                                           "topological_closure_assign"])
         # copy-on-write heavy
         lines += gen_pset.make_cases(chk.seed * 1000 + 3, n3, start=n1 + n2, maxdim=2, nobj=2, steps=4, pq=0.1, cow_p=1.0)
+        # the paths taken when abandon_expensive_computations is raised
+        lines += gen_pset.hurry_cases(chk.seed * 1000 + 4, 60 if chk.quick else 1500, start=n1 + n2 + n3)
     cases = polyrun.split_cases(lines)
     work = os.path.join(common.BUILD, "work-C09-%d" % os.getpid())
     shutil.rmtree(work, ignore_errors=True)
@@ -90,12 +93,15 @@ def run(chk):
     chk.extra["cow_histogram"] = {k[3:]: v for k, v in sorted(cov.items()) if k.startswith("cw:")}
     chk.extra["constructor_histogram"] = {k[4:]: v for k, v in sorted(cov.items()) if k.startswith("new:")}
     chk.extra["unmodelled"] = {k[11:]: v for k, v in sorted(cov.items()) if k.startswith("unmodelled:")}
+    chk.extra["steps_with_abandon_flag_raised"] = cov.get("hurry-steps", 0)
     chk.extra["unchanged_states_not_rejudged"] = cov.get("state-unchanged-skipped", 0)
     chk.extra["traces_validated_against_impl"] = stat.get("cases", 0)
     seen = set()
     for c in kept:
         for l in c:
-            if l.split(" ")[0] in ("op", "qry", "cw"):
+            if l.startswith("hurry "):
+                seen.add(l)
+            elif l.split(" ")[0] in ("op", "qry", "cw"):
                 seen.add(l.split(" ", 2)[-1] if l.startswith("cw") else l.split(" ", 2)[2])
     for s in seen:
         chk.nontrivial.add(s)
